@@ -521,3 +521,11 @@ for t, tier, mem in [("byte_vec", "quick", "L"), ("vec_u8", "quick", "L"), ("vec
         "unchecked length field): Vec::with_capacity requests recorded by a stub under the model checker, a tracking global allocator in the native replay",
         "5 symbolic bytes, symbolic length", "B = 5", 8, mem=mem,
         stubs=["stub: alloc::vec::Vec::with_capacity -> records the requested size, allocates lazily"])
+
+for nm, first in [("c18_resolve_resumption_then_external", "resumption, external"), ("c18_resolve_external_then_resumption", "external, resumption")]:
+    H(nm, "c18_resolver.rs", ["C18", "C13"], "quick", unwind=8, stubs=ZSTUBS,
+      what="PskResolver::resolve on the list [%s] with no prior-epoch repository: succeeds iff the external PSK is in the store AND the resumption "
+           "id names this group and this epoch; then the values are the stored one and the current epoch's resumption secret, in list order; "
+           "a foreign-group / other-epoch resumption id yields OldGroupStateNotFound, a missing external one MissingRequiredPsk" % first,
+      symbolic="group id byte and epoch of the context and of the resumption id (any u64), external id byte, store content (present / id / value), current "
+               "resumption secret", bounds="two ids, 1-byte group ids, 2-byte PSK values; prior-epoch repository absent")
